@@ -21,17 +21,20 @@ META = {
     'alphabet': {
         'window_sweep': 'start in [-3,5] (thorough [-5,7]); end in {start-2..start+6} + default (thorough -4..+8); '
                         'frequency 1..5 (1..7); registered at timestep 0..6 (0..8); horizon 12 (16)',
-        'multi_pool(key,priority,start,end,frequency)': [['w0', 0, 0, DEFAULT, 1], ['w1', 1, 2, 5, 2],
-                                                         ['w2', 0, -1, DEFAULT, 3], ['w3', -1, 4, 2, 1],
-                                                         ['w4', 0, 1, 1, 5]],
-        'multi_ops': 'add(i), execute(1|2|3), systems.execute_systems(), execute(n) for n in 0,-1,1.5,"2",True,None',
+        'multi_pool(key,id,priority,start,end,frequency)': 'w0, w1, w1b (another object under id w1, other window), '
+                                                            'w2 (negative start), sp (registers w5 at timestep 2), w5',
+        'multi_ops': 'add(key), remove(id) incl. unknown, execute(1|2|3), systems.execute_systems(), execute(n) for n in '
+                     '0,-1,1.5,"2",True,None',
     },
     'bounds': {'quick': 'sweep horizon 12; multi horizon 6', 'thorough': 'sweep horizon 16; multi horizon 9'},
     'assumptions': ['window attributes are not changed after construction'],
 }
 
-POOL = [('w0', 0, 0, DEFAULT, 1), ('w1', 1, 2, 5, 2), ('w2', 0, -1, DEFAULT, 3), ('w3', -1, 4, 2, 1),
-        ('w4', 0, 1, 1, 5)]
+# (key, id, priority, start, end, frequency); w1b is a different object registered under w1's id with another window;
+# sp is a spawner: when it runs at timestep SPAWN_AT it registers w5 (whose window opens two steps later)
+POOL = [('w0', 'w0', 0, 0, DEFAULT, 1), ('w1', 'w1', 1, 2, 5, 2), ('w1b', 'w1', 0, 1, DEFAULT, 3),
+        ('w2', 'w2', 0, -1, DEFAULT, 3), ('sp', 'sp', 2, 0, DEFAULT, 1), ('w5', 'w5', 0, 4, DEFAULT, 1)]
+SPAWN_AT = 2
 BAD_N = [0, -1, 1.5, '2', True, None]
 
 
@@ -43,12 +46,17 @@ def active(t, start, end, freq):
 
 def make_rec(log):
     class Rec(Core.System):
-        def __init__(self, key, model, prio, start, end, freq):
+        def __init__(self, key, model, prio, start, end, freq, sid=None):
             kw = {} if end == DEFAULT else {'end': end}
-            super().__init__(key, model, priority=prio, frequency=freq, start=start, **kw)
+            super().__init__(sid or key, model, priority=prio, frequency=freq, start=start, **kw)
+            self.key = key
+            self.spawn = None
 
         def execute(self):
-            log.append((self.model.systems.timestep, self.id))
+            log.append((self.model.systems.timestep, self.key))
+            if self.spawn is not None and self.model.systems.timestep == SPAWN_AT \
+                    and self.model.systems[self.spawn.id] is None:
+                self.model.systems.add_system(self.spawn)
     return Rec
 
 
@@ -126,7 +134,10 @@ class Multi:
         self.horizon = horizon
         self.config = {'horizon': horizon}
         self.cn = Canon()
-        self._adds = [['add', p[0]] for p in POOL]
+        self.spec = {p[0]: p for p in POOL}
+        self.ids = sorted({p[1] for p in POOL if p[0] != 'w5'}) + ['zz']
+        self._adds = [['add', p[0]] for p in POOL if p[0] != 'w5']
+        self._rems = [['remove', i] for i in self.ids]
         self._adv = [['execute', 1], ['execute', 2], ['execute', 3], ['execute_systems']]
         self._bad = [['bad', i] for i in range(len(BAD_N))]
 
@@ -135,43 +146,65 @@ class Multi:
         w.model = Core.Model(seed=1)
         w.log = []
         Rec = make_rec(w.log)
-        w.objs = {p[0]: Rec(*((p[0], w.model) + p[1:])) for p in POOL}
+        w.objs = {k: Rec(k, w.model, prio, start, end, freq, sid) for k, sid, prio, start, end, freq in POOL}
+        w.objs['sp'].spawn = w.objs['w5']
         w.ref = []        # registered keys in registration order
         w.t = 0
         w.last = ()
         return w
 
     def ops(self, w):
-        ops = list(self._adds) + list(self._bad)
+        ops = list(self._adds) + list(self._rems) + list(self._bad)
         for o in self._adv:
             n = o[1] if o[0] == 'execute' else 1
             if w.t + n <= self.horizon:
                 ops.append(o)
         return ops
 
+    def _byid(self, w):
+        return {self.spec[k][1]: k for k in w.ref}
+
     def expected_log(self, w, n):
-        spec = {p[0]: p for p in POOL}
+        """Steps the reference n timesteps (the spawner may register w5 on the way)."""
         out = []
         for t in range(w.t, w.t + n):
-            order = sorted(range(len(w.ref)), key=lambda i: (-spec[w.ref[i]][1], i))
-            for i in order:
-                _, _, start, end, freq = spec[w.ref[i]]
+            order = sorted(range(len(w.ref)), key=lambda i: (-self.spec[w.ref[i]][2], i))
+            todo = [w.ref[i] for i in order]
+            for k in todo:
+                _, _, _, start, end, freq = self.spec[k]
                 if active(t, start, end, freq):
-                    out.append((t, w.ref[i]))
+                    out.append((t, k))
+                    if k == 'sp' and t == SPAWN_AT and 'w5' not in w.ref:
+                        w.ref.append('w5')     # first due at timestep 4, so "this timestep or the next" is moot
         return out
 
     def apply(self, w, op, twin=True):
         kind = op[0]
         if kind == 'add':
-            if op[1] in w.ref:
+            sid = self.spec[op[1]][1]
+            if sid in self._byid(w):
+                before = self.canon(w)
                 try:
                     w.model.systems.add_system(w.objs[op[1]])
                 except KeyError:
+                    if self.canon(w) != before:
+                        raise Violation(f'rejected registration of {op[1]} changed the scheduler')
                     return
                 raise Violation('duplicate registration accepted')
             w.model.systems.add_system(w.objs[op[1]])
             w.ref.append(op[1])
             return
+        if kind == 'remove':
+            byid = self._byid(w)
+            if op[1] in byid:
+                w.model.systems.remove_system(op[1])
+                w.ref.remove(byid[op[1]])
+                return
+            try:
+                w.model.systems.remove_system(op[1])
+            except Core.SystemNotFoundError:
+                return
+            raise Violation(f'removal of unknown system {op[1]} accepted')
         if kind == 'bad':
             n = BAD_N[op[1]]
             before = self.canon(w)
